@@ -119,7 +119,7 @@ func checkC18(w *World, r *Report) {
 				continue
 			}
 			ts := g.Type().String()
-			if strings.Contains(ts, "variables.") || strings.Contains(ts, "TaskRunner") || strings.Contains(ts, "Scheduler") || strings.Contains(ts, "PgidExecutor") {
+			if strings.Contains(ts, "variables.") || strings.Contains(ts, "TaskRunner") || strings.HasSuffix(ts, "taskctl.Runner") || strings.HasSuffix(ts, "runner.Runner") || strings.Contains(ts, "Scheduler") || strings.Contains(ts, "PgidExecutor") {
 				r.Viol("per-job.no-globals", "package-level variable "+globalName(g), w.Pos(g.Pos()), "a package-level "+ts+" is shared by all jobs: what one job sets is visible to another")
 			}
 		}
